@@ -95,7 +95,10 @@ class PbnParser(Parser):
         :return: Dict converted from tag pairs.
         """
         string = ''.join(self.tag_pair_buffer)
-        string = re.sub(self.REPLACE_PATTERN, ' ', string)
+        # whitespace inside a quoted tag value belongs to the value
+        string = re.sub(r'"[^"]*"|' + self.REPLACE_PATTERN,
+                        lambda m: m.group(0) if m.group(0)[0] == '"' else ' ',
+                        string)
         tag_pairs = re.findall(self.TAG_PATTERN, string, )
 
         game_mem = dict()
